@@ -104,6 +104,17 @@ func renderEnt(w *World, e entShape, name string) (string, *CEntity) {
 	case "nested_entity":
 		parts = append(parts, `"props":{"p:a":{"id":"ex:sub","props":{"p:k":"v"},"refs":{}}}`)
 		exp.Props = map[string]any{pp + ":a": map[string]any{"id": w.EntP + ":sub", "props": map[string]any{pp + ":k": "v"}, "refs": map[string]any{}}}
+	case "empty_arrays":
+		parts = append(parts, `"props":{"p:a":[],"p:b":[[],[1]],"p:c":"s"}`)
+		exp.Props = map[string]any{pp + ":a": []any{}, pp + ":b": []any{[]any{}, []any{1.0}}, pp + ":c": "s"}
+	case "numbers": // (a JSON null value is dropped by the parser; whether null denotes a property is left open, not checked)
+		parts = append(parts, `"props":{"p:b":1e3,"p:c":-0.5,"p:d":123456789012,"p:e":""}`)
+		exp.Props = map[string]any{pp + ":b": 1000.0, pp + ":c": -0.5, pp + ":d": 123456789012.0, pp + ":e": ""}
+	case "array_of_entities":
+		parts = append(parts, `"props":{"p:a":[{"id":"ex:s1","props":{"p:k":[]},"refs":{"r:p":"ex:t1"}},{"id":"ex:s2","props":{},"refs":{}}]}`)
+		exp.Props = map[string]any{pp + ":a": []any{
+			map[string]any{"id": w.EntP + ":s1", "props": map[string]any{pp + ":k": []any{}}, "refs": map[string]any{rp0(w) + ":p": w.EntP + ":t1"}},
+			map[string]any{"id": w.EntP + ":s2", "props": map[string]any{}, "refs": map[string]any{}}}}
 	case "array_instead_of_object":
 		parts = append(parts, `"props":[1,2]`)
 	case "unknown_prefix_key":
@@ -119,6 +130,9 @@ func renderEnt(w *World, e entShape, name string) (string, *CEntity) {
 	case "array":
 		parts = append(parts, `"refs":{"r:p":["ex:t1","ex:t2"]}`)
 		exp.Refs = map[string]any{rp + ":p": []any{w.EntP + ":t1", w.EntP + ":t2"}}
+	case "empty_array":
+		parts = append(parts, `"refs":{"r:p":[]}`)
+		exp.Refs = map[string]any{rp + ":p": []any{}}
 	case "number_value":
 		parts = append(parts, `"refs":{"r:p":5}`)
 	case "array_with_number":
@@ -130,6 +144,8 @@ func renderEnt(w *World, e entShape, name string) (string, *CEntity) {
 	}
 	return "{" + strings.Join(parts, ",") + "}", exp
 }
+
+func rp0(w *World) string { return w.PredP }
 
 func renderDoc(w *World, d *docCase, tag string) (string, []CEntity) {
 	var elems []string
